@@ -33,7 +33,7 @@ Apply(c, st, op) ==
   CASE op.t = "sim" ->
          LET s2 == SimOp(st, op.ps)
              ran == Par(st.sim, op.ps, "stop") >= 0
-         IN [st |-> Tick([s2 EXCEPT !.mpdef = IF ran THEN Par(st.sim, op.ps, "cmio") = 1 ELSE (st.mpdef \/ ~st.sim.has \/ Par(st.sim, op.ps, "clear") = 1 \/ Given(op.ps, "memptr"))]),
+         IN [st |-> Tick([s2 EXCEPT !.mpdef = IF ran THEN FALSE ELSE (st.mpdef \/ ~st.sim.has \/ Par(st.sim, op.ps, "clear") = 1 \/ Given(op.ps, "memptr"))]),
              out |-> <<>>]
     [] op.t = "fields" -> [st |-> st, out |-> [i \in 1..Len(op.fs) |-> Field(st.sim, op.fs[i].n, op.fs[i].i)]]
     [] op.t = "peek" -> [st |-> st, out |-> <<Peek(st.m, Val(st.sim, op.a))>>]
